@@ -389,6 +389,14 @@ def dynmock_stage(ctx, cases, gate=True):
                                      "out_default_body": stats.get("out_default_body", 0)}
     ctx.coverage["evaluations"] += sum(w["cases"] for w in workers)
     ctx.coverage["distinct_nontrivial"] += summary["distinct_nontrivial"]
+    if ctx.prop == "C19":
+        # messages are also produced by a debug build (overflow checks on while they are formatted)
+        workers, viols, summary, _ = engine_a._run_config(ctx, "std", 30_000 if ctx.tier == "quick" else 600_000,
+                                                          profile="dev")
+        for v in viols:
+            ctx.violation(f"dynmock:std-debug:{'+'.join(v['tags'])}:{v['at'].split(' ')[0]}", dict(v, config="std (debug build)"))
+        ctx.coverage["dynmock_stage"]["debug_build_cases"] = sum(w["cases"] for w in workers)
+        ctx.coverage["evaluations"] += sum(w["cases"] for w in workers)
 
 
 def run(ctx):
